@@ -44,6 +44,16 @@
 //!   attributes that were reported item by item; the `on_chunk` callback of [`read`] /
 //!   [`subscribe`] runs between two chunks (e.g. to call [`SynthNode::set_hidden`]).
 //!
+//! * Long-lived SUBSCRIBER (property C13, level L2; see the section at the end of this file):
+//!   [`SubscriberHub`] — a controller-side `ExchangeHandler` that accepts the exchanges the device
+//!   opens for `ReportData`, records every chunk ([`ReportRecord`]) and answers per subscription id
+//!   and virtual time ([`SubReply`]: success / refusal status / no IM answer); [`ImRig::run_sub`]
+//!   — [`ImRig::run`] plus controller responder tasks, an arbitrary key-value store, an optional
+//!   external `InteractionModelState` ([`new_im_state`]) and `InteractionModel::startup()` for
+//!   restarts with persisted subscriptions; [`plant_info`] — ids and keys of the n-th planted pair
+//!   for decrypting the tap; [`decode_report_data`], [`decode_status_response`],
+//!   [`decode_subscribe_response`]; [`ImRig::im_state`], [`ImRig::planted_count`].
+//!
 //! Cost: about 0.3 ms per request (planted sessions, no handshakes). Nothing is leaked: all
 //! metadata lives in `Vec`s owned by the `SynthNode`, the rig is one `Box`, futures are boxed by
 //! the executor and dropped at the end of [`ImRig::run`].
@@ -1861,4 +1871,333 @@ pub fn fold_lists(items: &[ReportItem]) -> Result<Vec<(Path, ReportBody)>, Strin
         }
     }
     Ok(out)
+}
+
+// =================================================================================================
+// Long-lived subscriber (property C13, level L2): device-initiated reports on the controller
+// =================================================================================================
+//
+// * [`plant_info`] — session ids and keys of the n-th pair planted by [`ImRig::plant`], so that a
+//   check can decrypt the tap / the datagrams seen by a network adversary (`node::decode_wire`).
+// * [`SubscriberHub`] — an `ExchangeHandler` for the CONTROLLER: accepts the exchanges the device
+//   opens for `ReportData`, decodes every chunk independently of rs-matter's TLV code, records
+//   ([`ReportRecord`]: virtual time, subscription id, attribute items, event items, flags) and
+//   answers as the scenario says ([`SubReply`], per subscription id and virtual time): success
+//   status, a refusal status, or no Interaction-Model answer at all (the MRP ack still goes out).
+// * [`ImRig::run_sub`] — like [`ImRig::run`], plus `ctrl_tasks` controller responder tasks around a
+//   hub, an arbitrary key-value store, an optional external `InteractionModelState` and an
+//   optional `InteractionModel::startup()` (restart of the Interaction-Model layer with persisted
+//   subscriptions: run once, then run again with a fresh state and the same store).
+// * [`ImRig::im_state`], [`ImRig::planted_count`].
+
+use rs_matter::persist::KvBlobStore;
+use rs_matter::respond::ExchangeHandler;
+
+/// Session ids and keys of one planted pair.
+#[derive(Debug, Clone, PartialEq, Eq)]
+pub struct PlantInfo {
+    /// local session id of the controller half = the id in the header of device -> controller
+    /// datagrams
+    pub ctrl_sess: u16,
+    /// local session id of the device half = the id in the header of controller -> device datagrams
+    pub dev_sess: u16,
+    /// key of controller -> device traffic
+    pub key_cd: [u8; 16],
+    /// key of device -> controller traffic
+    pub key_dc: [u8; 16],
+}
+
+/// What [`ImRig::plant`] uses for its `n`-th call (n = 0, 1, ...).
+pub fn plant_info(n: u16) -> PlantInfo {
+    let mut key_cd = [0u8; 16];
+    let mut key_dc = [0u8; 16];
+    for i in 0..16 {
+        key_cd[i] = (n as u8).wrapping_mul(31).wrapping_add(i as u8 * 7 + 1);
+        key_dc[i] = (n as u8).wrapping_mul(17).wrapping_add(i as u8 * 13 + 5);
+    }
+    PlantInfo { ctrl_sess: 0x0100 + n, dev_sess: 0x0200 + n, key_cd, key_dc }
+}
+
+/// How the subscriber answers one ReportData chunk.
+#[derive(Debug, Clone, Copy, PartialEq, Eq, Serialize, Deserialize)]
+pub enum SubReply {
+    /// StatusResponse(Success) (nothing if the device asked to suppress the response)
+    Accept,
+    /// StatusResponse with this (non-success) Interaction-Model status, then the exchange ends
+    Reject(u16),
+    /// no Interaction-Model answer (the message is acknowledged at MRP level only); the exchange
+    /// is held for that many virtual seconds and then dropped
+    Silent(u16),
+}
+
+/// One ReportData message received by the controller on a device-initiated exchange.
+#[derive(Debug, Clone, PartialEq)]
+pub struct ReportRecord {
+    /// virtual time the handler saw the message
+    pub t_us: u64,
+    /// serial number of the handler invocation (one per accepted exchange)
+    pub exchange: u32,
+    /// index of the message inside its exchange
+    pub chunk: usize,
+    pub sub_id: Option<u32>,
+    pub attrs: Vec<ReportItem>,
+    pub events: Vec<EventItem>,
+    pub more: bool,
+    pub suppress: bool,
+    pub reply: SubReply,
+    /// `Some(error)` if sending the answer failed
+    pub reply_error: Option<String>,
+}
+
+/// Decode one ReportData payload (independent TLV decoder): `(subscription id, attribute items,
+/// event items, more chunks, suppress response)`.
+pub fn decode_report_data(payload: &[u8], chunk: usize) -> Option<(Option<u32>, Vec<ReportItem>, Vec<EventItem>, bool, bool)> {
+    let (_, msg) = tlv::parse(payload)?;
+    let mut out = ReadOutcome::default();
+    let (more, suppress) = dec_report(&msg, chunk, &mut out)?;
+    let sub_id = msg.ctx(0).and_then(|x| x.u()).map(|x| x as u32);
+    Some((sub_id, out.attrs, out.events, more, suppress))
+}
+
+/// Decode a StatusResponse payload.
+pub fn decode_status_response(payload: &[u8]) -> Option<u16> {
+    dec_status_resp(payload)
+}
+
+/// Decode a SubscribeResponse payload: `(subscription id, max interval)`.
+pub fn decode_subscribe_response(payload: &[u8]) -> Option<(u32, u16)> {
+    let (_, v) = tlv::parse(payload)?;
+    Some((v.ctx(0)?.u()? as u32, v.ctx(2)?.u()? as u16))
+}
+
+/// The controller-side subscriber: log + answer policy.
+#[derive(Default)]
+pub struct SubscriberHub {
+    /// every ReportData message seen, in arrival order
+    pub log: RefCell<Vec<ReportRecord>>,
+    /// anything else that arrived on a device-initiated exchange
+    pub oddities: RefCell<Vec<String>>,
+    /// per subscription id: `(from virtual µs, reply)` steps, ascending; before the first step
+    /// (and for unknown ids) the answer is `default_reply`
+    pub policy: RefCell<BTreeMap<u32, Vec<(u64, SubReply)>>>,
+    /// answer for subscription ids without a policy (a real subscriber refuses reports of
+    /// subscriptions it does not know; the default here is `Accept`)
+    pub default_reply: Cell<Option<SubReply>>,
+    serial: Cell<u32>,
+}
+
+impl SubscriberHub {
+    pub fn new() -> Self {
+        Self::default()
+    }
+
+    /// From `from_us` on, reports of subscription `sub_id` are answered with `reply`.
+    pub fn set_reply(&self, sub_id: u32, from_us: u64, reply: SubReply) {
+        let mut p = self.policy.borrow_mut();
+        let steps = p.entry(sub_id).or_default();
+        steps.push((from_us, reply));
+        steps.sort_by_key(|s| s.0);
+    }
+
+    fn reply_for(&self, sub_id: Option<u32>, now: u64) -> SubReply {
+        let dflt = self.default_reply.get().unwrap_or(SubReply::Accept);
+        let Some(id) = sub_id else { return dflt };
+        let p = self.policy.borrow();
+        let Some(steps) = p.get(&id) else { return dflt };
+        steps.iter().rev().find(|(t, _)| *t <= now).map(|(_, r)| *r).unwrap_or(dflt)
+    }
+}
+
+impl ExchangeHandler for SubscriberHub {
+    async fn handle(&self, mut exchange: Exchange<'_>) -> Result<(), Error> {
+        let serial = self.serial.get();
+        self.serial.set(serial + 1);
+        if exchange.rx().is_err() {
+            exchange.recv_fetch().await?;
+        }
+        let mut chunk = 0usize;
+        loop {
+            let (proto, op, payload) = {
+                let rx = exchange.rx()?;
+                let m = rx.meta();
+                (m.proto_id, m.proto_opcode, rx.payload().to_vec())
+            };
+            let now = clock::now();
+            if proto != rs_matter::im::PROTO_ID_INTERACTION_MODEL || op != OpCode::ReportData as u8 {
+                self.oddities.borrow_mut().push(format!("t={now} exchange {serial}: protocol {proto:#x} opcode {op}"));
+                break;
+            }
+            let Some((sub_id, attrs, events, more, suppress)) = decode_report_data(&payload, chunk) else {
+                self.oddities.borrow_mut().push(format!("t={now} exchange {serial}: undecodable ReportData"));
+                break;
+            };
+            let reply = self.reply_for(sub_id, now);
+            let idx = {
+                let mut log = self.log.borrow_mut();
+                log.push(ReportRecord { t_us: now, exchange: serial, chunk, sub_id, attrs, events, more, suppress, reply, reply_error: None });
+                log.len() - 1
+            };
+            match reply {
+                SubReply::Accept => {
+                    if more || !suppress {
+                        if let Err(e) = send_msg(&mut exchange, OpCode::StatusResponse, &encode_status(0)).await {
+                            self.log.borrow_mut()[idx].reply_error = Some(e);
+                            return Ok(());
+                        }
+                    }
+                }
+                SubReply::Reject(code) => {
+                    if let Err(e) = send_msg(&mut exchange, OpCode::StatusResponse, &encode_status(code)).await {
+                        self.log.borrow_mut()[idx].reply_error = Some(e);
+                    }
+                    break;
+                }
+                SubReply::Silent(hold_s) => {
+                    let _ = select(exchange.acknowledge(), Timer::after(Duration::from_secs(2))).await;
+                    Timer::after(Duration::from_secs(hold_s as u64)).await;
+                    return Ok(());
+                }
+            }
+            if !more {
+                break;
+            }
+            chunk += 1;
+            match select(exchange.recv_fetch(), Timer::after(Duration::from_secs(ANSWER_TIMEOUT_S))).await {
+                Either::First(Ok(_)) => {}
+                Either::First(Err(e)) => {
+                    self.oddities.borrow_mut().push(format!("t={} exchange {serial}: next chunk: {:?}", clock::now(), e.code()));
+                    return Ok(());
+                }
+                Either::Second(_) => {
+                    self.oddities.borrow_mut().push(format!("t={} exchange {serial}: next chunk never came", clock::now()));
+                    return Ok(());
+                }
+            }
+        }
+        let _ = select(exchange.acknowledge(), Timer::after(Duration::from_secs(5))).await;
+        Ok(())
+    }
+}
+
+/// The type of the rig's (and of an external) Interaction-Model state.
+pub type RigImState =
+    InteractionModelState<DummyNetworks, { rs_matter::im::subscriptions::DEFAULT_MAX_SUBSCRIPTIONS }, RIG_EVENTS_BUF>;
+
+/// A fresh Interaction-Model state of the rig's type (for restarts of the IM layer).
+pub fn new_im_state() -> Box<RigImState> {
+    Box::new(InteractionModelState::new(DummyNetworks))
+}
+
+impl<C: Crypto> ImRig<C> {
+    /// The rig's own Interaction-Model state (subscription table, event store).
+    pub fn im_state(&self) -> &RigImState {
+        &self.state
+    }
+
+    /// Number of session pairs planted so far (= the `n` of the next [`ImRig::plant`]).
+    pub fn planted_count(&self) -> u16 {
+        self.planted.get()
+    }
+
+    /// Like [`ImRig::run`], with a controller-side responder (`ctrl_tasks` tasks around `hub`) that
+    /// serves the exchanges the device initiates, the key-value store `store` behind the device's
+    /// Interaction Model, `state` instead of the rig's own state if given, and — if `startup` —
+    /// `InteractionModel::startup()` (re-hydration of events epoch and persisted subscriptions)
+    /// before anything runs.
+    #[allow(clippy::too_many_arguments)]
+    pub fn run_sub<F: Future<Output = ()>, S: KvBlobStore, H: ExchangeHandler>(
+        &self,
+        node: &SynthNode,
+        sched: Sched,
+        handlers: usize,
+        deadline_s: u64,
+        store: S,
+        state: Option<&RigImState>,
+        startup: bool,
+        hub: &H,
+        ctrl_tasks: usize,
+        client: F,
+    ) -> (Stop, bool, Option<String>) {
+        let state = state.unwrap_or(&self.state);
+        state.suppress_start_up_event();
+        let kv = self.dev.kv(store);
+        let dm = InteractionModel::new(&self.dev, &self.dev_crypto, &self.buffers, (node, Async(node)), &kv, state);
+        let responder = Responder::new_default(&dm);
+        let ctrl_responder = Responder::new("Subscriber", hub, &self.ctrl, 0);
+        let done = Cell::new(false);
+        let startup_error: RefCell<Option<String>> = RefCell::new(None);
+        let started = Cell::new(false);
+        let stop;
+        {
+            let mut ex = Exec::new(sched);
+            ex.add_time_source(&self.net);
+            if startup {
+                let (dm, err) = (&dm, &startup_error);
+                let s = &started;
+                ex.spawn("dev.startup", async move {
+                    if let Err(e) = dm.startup().await {
+                        *err.borrow_mut() = Some(format!("{:?}", e.code()));
+                    }
+                    s.set(true);
+                });
+                let now = clock::now();
+                let _ = ex.run_until(now, || started.get());
+            }
+            ex.spawn("dev.run", async {
+                let _ = self.dev.run(&self.dev_crypto, self.net.end(0), self.net.end(0), NoNetwork).await;
+            });
+            ex.spawn("dev.dm", async {
+                let _ = dm.run().await;
+            });
+            for h in 0..handlers.max(1) {
+                let r = &responder;
+                ex.spawn(&format!("dev.h{h}"), async move {
+                    let _ = r.handle(h).await;
+                });
+            }
+            {
+                let (dm, q, out) = (&dm, &self.queue, &self.emitted);
+                ex.spawn("dev.ctl", async move {
+                    loop {
+                        loop {
+                            let cmd = q.borrow_mut().pop_front();
+                            let Some(cmd) = cmd else { break };
+                            match cmd {
+                                DevCmd::Emit { ep, cl, ev, prio, payload } => {
+                                    let prio = match prio {
+                                        0 => EventPriority::Debug,
+                                        1 => EventPriority::Info,
+                                        _ => EventPriority::Critical,
+                                    };
+                                    let r = dm.emit_event(ep, cl, ev, prio, |mut tw| write_retagged(&mut tw, &payload));
+                                    out.borrow_mut().push(r.map_err(|e| format!("{:?}", e.code())));
+                                }
+                                DevCmd::AttrChanged(e, c, a) => dm.notify_attr_changed(e, c, a),
+                                DevCmd::AllChanged => dm.notify_all_changed(),
+                            }
+                        }
+                        Pending1::default().await;
+                    }
+                });
+            }
+            ex.spawn("ctrl.run", async {
+                let _ = self.ctrl.run(&self.ctrl_crypto, self.net.end(1), self.net.end(1), NoNetwork).await;
+            });
+            for h in 0..ctrl_tasks {
+                let r = &ctrl_responder;
+                ex.spawn(&format!("ctrl.h{h}"), async move {
+                    let _ = r.handle(h).await;
+                });
+            }
+            let d = &done;
+            ex.spawn("client", async move {
+                client.await;
+                d.set(true);
+            });
+            let dl = clock::now() + deadline_s * SEC;
+            stop = ex.run_until(dl, || done.get());
+        }
+        let err = startup_error.into_inner();
+        (stop, done.get(), err)
+    }
 }
